@@ -129,6 +129,29 @@ def high_bytes(ctx):
     ctx.count('high_byte_evaluations', n)
 
 
+def drive_text_pairs(ctx):
+    """escape() / is_magic() / matching of drive, UNC and device-namespace texts (keywords in any case, magic characters inside the
+    prefix, both separator spellings): the bytes call is the encoded str call."""
+    from .c09 import DRIVES
+    tails = ['a', 'a*b', 'x-y', '!z', '~', '[a]', '']
+    n = 0
+    for di, d in enumerate(DRIVES + ['//?/UNC/my-server/share/', '\\\\?\\UNC\\my-server\\sh(a)re\\', '//?/GLOBAL/na~me/', '//./Unc/a-b/c!d/']):
+        if not ctx.mine(di):
+            continue
+        for tail in tails:
+            for text in (d + tail, (d + tail).replace('/', '\\')):
+                wit = {'api': 'glob', 'patterns': text, 'flags': ['FORCEWIN'], 'mode': 'drive-texts'}
+                for fl in (G.FORCEWIN, G.FORCEWIN | G.NEGATE | G.MINUSNEGATE, G.FORCEWIN | G.BRACE | G.SPLIT | G.EXTGLOB, G.FORCEWIN | G.CASE):
+                    pair(ctx, 'drive text: escape(unix=False)', wit, lambda: G.escape(text, unix=False), lambda: G.escape(enc(text), unix=False))
+                    pair(ctx, 'drive text: is_magic', wit, lambda: G.is_magic(text, flags=fl), lambda: G.is_magic(enc(text), flags=fl), conv=lambda x: x)
+                    pair(ctx, 'drive text: translate', wit, lambda: G.translate(text, flags=fl), lambda: G.translate(enc(text), flags=fl),
+                         conv=lambda r: (enc(r[0]), enc(r[1])))
+                    pair(ctx, 'drive text: self match of the escape', wit, lambda: G.globmatch(text, G.escape(text, unix=False), flags=fl),
+                         lambda: G.globmatch(enc(text), G.escape(enc(text), unix=False), flags=fl), conv=lambda x: x)
+                    n += 4
+    ctx.count('drive_text_pairs', n)
+
+
 def high_byte_tree(ctx):
     """File names and patterns with bytes >= 0x80 through the file-system entry points: the walker, given bytes, treats every
     byte as one Latin-1 code unit, exactly like the matcher does (glob == the entries globmatch accepts), WcMatch likewise."""
@@ -324,6 +347,7 @@ def run(ctx):
     quick = ctx.quick
     high_bytes(ctx)
     high_byte_tree(ctx)
+    drive_text_pairs(ctx)
     flag_pair_sweep(ctx)
     if ctx.shard == 0:
         with T.Tree([('a', 'f', None), ('b', 'f', None)], 'c18m-') as tr:
@@ -403,6 +427,7 @@ def replay(ctx, w):
     else:
         high_bytes(ctx)
         high_byte_tree(ctx)
+        drive_text_pairs(ctx)
         with T.Tree([('a', 'f', None)], 'c18m-') as tr:
             mixed_types(ctx, tr.root)
     return ctx.violations or None
